@@ -225,14 +225,39 @@ def replay(record):
     probs = []
     mode = cfg["mode"]
     if mode in ("eigh", "zero-estimate"):
-        Q = M.matrix_eigenvectors(A, torch.zeros(n, n, dtype=torch.float64), QRConfig() if mode == "zero-estimate" else EighEigenvectorConfig())
-        D = Q.T @ A @ Q
-        if not torch.allclose(Q.T @ Q, torch.eye(n, dtype=torch.float64), atol=1e-8):
-            probs.append("Q not orthonormal")
-        if not torch.allclose(D, torch.diag(torch.diagonal(D)), atol=1e-6 * (1 + A.abs().max().item())):
-            probs.append("Q^T A Q not diagonal")
-        if (torch.diagonal(D)[1:] < torch.diagonal(D)[:-1] - 1e-9).any():
-            probs.append("eigenvalues not ascending")
+        # the stub's output cannot be imposed on LAPACK: look for a concrete PSD input of the same size, starting from the witness (as given, squared, and
+        # rescaled -- the property quantifies over all PSD matrices, whatever their scale), on which an observable clause fails; tolerances are relative to |A|
+        Aw = torch.tensor([[val(f"a_{min(i, j)}_{max(i, j)}") for j in range(n)] for i in range(n)], dtype=torch.float64)
+        cands = []
+        if Aw.abs().max() > 0:
+            if torch.linalg.eigvalsh(Aw).min() >= 0:
+                cands.append(Aw)
+            cands.append(A)
+            cands += [c * s_ for c in list(cands) for s_ in (1e-3, 1e-6, 1e-9, 1e-12)]
+        g = torch.Generator().manual_seed(2)
+        for s_ in (1.0, 1e-4, 1e-8, 1e-10, 1e-12, 1e4):
+            for _ in range(6):
+                B = torch.randn(n, n, dtype=torch.float64, generator=g)
+                cands.append(B @ B.T * s_)
+        for Ac in cands:
+            for dt in (torch.float64, torch.float32):
+                Ad = Ac.to(dt)
+                scale = Ad.abs().max().item()
+                if scale == 0 or scale < 1e-30:
+                    continue
+                Q = M.matrix_eigenvectors(Ad, torch.zeros(n, n, dtype=dt), QRConfig() if mode == "zero-estimate" else EighEigenvectorConfig())
+                D = Q.T @ Ad @ Q
+                tol = 1e-4 if dt is torch.float32 else 1e-9
+                if not torch.allclose(Q.T @ Q, torch.eye(n, dtype=dt), atol=tol):
+                    probs.append(f"Q not orthonormal for A={Ad.tolist()}")
+                if (D - torch.diag(torch.diagonal(D))).abs().max().item() > tol * scale:
+                    probs.append(f"Q^T A Q not diagonal (off-diagonal {(D - torch.diag(torch.diagonal(D))).abs().max().item():.3e} at |A|={scale:.3e}) for A={Ad.tolist()}")
+                if (torch.diagonal(D)[1:] < torch.diagonal(D)[:-1] - tol * scale).any():
+                    probs.append(f"eigenvalues not ascending for A={Ad.tolist()}")
+                if probs:
+                    break
+            if probs:
+                break
     elif mode == "diag":
         Q = M.matrix_eigenvectors(A, torch.eye(n, dtype=torch.float64), QRConfig(), is_diagonal=True)
         if not torch.equal(Q, torch.eye(n, dtype=torch.float64)):
